@@ -315,6 +315,22 @@ def r_oprec(E):
                     res.findings.append(Finding(
                         "R-OPREC", key, f"{where} implements {osym!r} but computes with {vsym!r}", rel,
                         out.node.lineno, where))
+                # operands that are fields of a record built by a straight-line helper of the class (`aligned = self.
+                # aligned_with(other)` … `aligned.left + aligned.right`): read as the fields' expressions
+                if not isinstance(out.fn, str) and any(isinstance(x_, ast.Attribute) and isinstance(x_.value, ast.Name)
+                                                       for x_ in (vl, vr)):
+                    from ..astutil import record_bindings as _rb
+                    from .units import module_record_classes as _mrc
+                    mt_ = next((t for m_, (r_, t, _s) in pm.modules.items() if r_ == rel), None)
+                    rcs_ = {k_: v_ for k_, v_ in (_mrc(mt_) if mt_ is not None else {}).items() if isinstance(v_, ast.ClassDef)}
+                    binds_ = _rb(out.fn, pm.helper_finder(out.cls), None, rcs_) if rcs_ else {}
+
+                    def through_record(e_):
+                        if isinstance(e_, ast.Attribute) and isinstance(e_.value, ast.Name) and e_.value.id in binds_ \
+                                and e_.attr in binds_[e_.value.id][1]:
+                            return binds_[e_.value.id][1][e_.attr]
+                        return e_
+                    vl, vr = through_record(vl), through_record(vr)
                 if (_root(vl), _root(vr)) != (l, r):
                     res.findings.append(Finding(
                         "R-OPREC", key, f"{where} computes {norm(out.value)[:60]} but records parents ({l}, {r}): "
@@ -864,7 +880,7 @@ def r_raw2(E):
             mf = MagnitudeFlow(fn, default_sink_of, tables,
                                pm.helper_finder(cls.name) if isinstance(cls, ast.ClassDef) else None, recs)
             q = fn.name
-            seen_calls = {id(n) for n, _ in mf.elementwise}
+            seen_calls = {id(getattr(n, "_origin", n)) for n, _ in mf.elementwise} | {id(n) for n, _ in mf.elementwise}
             bad_idx = {id(n): ix for n, ix in mf.misaligned}
             bad_unit = {id(n): us for n, us in mf.mixed_units}
             for node, parts in mf.elementwise:
@@ -892,7 +908,7 @@ def r_raw2(E):
             # an element-wise max / min that the flow did not meet at all
             for call in ast.walk(fn):
                 if isinstance(call, ast.Call) and len(call.args) == 2 and id(call) not in seen_calls \
-                        and call not in mf.untraced:
+                        and call not in mf.untraced and id(call) not in {id(getattr(u_, "_origin", u_)) for u_ in mf.untraced}:
                     cts = callee_texts(call, fn)
                     if cts and cts <= {"np.maximum", "np.minimum"}:
                         res.instances += 1
